@@ -21,13 +21,17 @@ def sweep(tier, seed):
 
     reps = 1 if tier == "quick" else 6
     for _ in range(reps):
-        for dtype in ("float64", "float32", "int32", "int64"):
+        for dtype in ("float64", "float32", "int32", "int64", "uint16"):
             n = int(rng.integers(1, 6))
             va = (rng.integers(1, 50, size=n)).astype(dtype)
             vb = (rng.integers(1, 50, size=n)).astype(dtype)
             a = lambda u="m": Array(values=va.copy(), unit=u)  # noqa: E731
             b = lambda u="m": Array(values=vb.copy(), unit=u)  # noqa: E731
+            # unsigned dtype: only calls whose exact result is representable (the oracle computes in float64, numpy wraps)
+            wraps = (lambda f, k=None: dtype.startswith("uint") and (f in ("negative", "diff", "subtract") or (f == "power" and k == 3)))
             for f in N.SAME_UNARY:
+                if wraps(f):
+                    continue
                 ok, d = N.catalogue_call(f, [a()])
                 rec("C10.native.unary[%s]" % f, (f, dtype), ok, d)
             for f in N.TRANSFORM_UNARY:
@@ -36,6 +40,8 @@ def sweep(tier, seed):
                 ok, d = N.catalogue_call(f, [a()])
                 rec("C10.native.transform[%s]" % f, (f, dtype), ok, d)
             for f in N.SAME_BINARY + N.COMPARISONS:
+                if wraps(f):
+                    continue
                 ok, d = N.catalogue_call(f, [a(), b()])
                 rec("C10.native.same[%s]" % f, (f, dtype, "same"), ok, d)
                 ok, d = N.catalogue_call(f, [a("m"), b("cm")])
@@ -47,9 +53,13 @@ def sweep(tier, seed):
                     ok, d = N.catalogue_call(f, [a(), other])
                     rec("C10.native.transform[%s,%s]" % (f, tag), (f, dtype, tag), ok, d)
             for k in (2, 3, 0.5):
+                if wraps("power", k):
+                    continue
                 ok, d = N.catalogue_call("power", [a(), k])
                 rec("C10.native.transform[power]", ("power", dtype, k), ok, d)
             for k in (2, 3):
+                if wraps("power", k):
+                    continue
                 ok, d = N.catalogue_call("power", [a(), np.array(k)])
                 rec("C10.native.transform[power,ndarray_exponent]", ("power", dtype, "nd", k), ok, d)
             for f in ("maximum", "add"):
